@@ -20,7 +20,7 @@ import numpy as np
 import core
 import gen
 
-PROOF_MODULES = ["UnytProofs.C18", "UnytProofs.C18Equiv", "UnytProofs.C18Order", "UnytProofs.C18Reuse"]
+PROOF_MODULES = ["UnytProofs.C18", "UnytProofs.C18Equiv", "UnytProofs.C18Order", "UnytProofs.C18Reuse", "UnytProofs.C18Alias"]
 HARNESS = os.path.dirname(os.path.abspath(__file__))
 PLUGINS = ("c18",)
 # tables of other properties this model reads: refreshed best-effort (their own checks own them; a
@@ -793,7 +793,58 @@ def run_ufuncs(chk, M, tier):
 # D. the npcatalog sweep (direct oracle only)
 
 
-def run_catalogue(chk, tier, seed):
+def check_alias_table(chk, M):
+    """the may-alias table read back: every live `__array_function__` handler is a routine of the table with the
+    parameter list `inspect.signature` reports (ties the ast abstraction to the live objects)"""
+    import inspect
+
+    try:
+        A = json.load(open(os.path.join(core.BUILD, "extract_c18_alias.json"), encoding="utf-8"))
+    except Exception as e:  # noqa: BLE001
+        chk.disagree("translator", f"no extract_c18_alias.json: {e}")
+        return
+    import unyt._array_functions as AF
+
+    hs = sorted({h.__name__: h for h in AF._HANDLED_FUNCTIONS.values()}.items())
+    reps = M.ask([f"c18.af.params\t{n}" for n, _ in hs] + ["c18.af.nroutines"])
+    for (n, h), rep in zip(hs, reps):
+        chk.case(("alias-table", n))
+        live = list(inspect.signature(h).parameters)
+        got = list(rep)
+        if got[0] != "ok" or [x for x in (got[1].split(",") if len(got) > 1 else []) if x] != live:
+            chk.disagree("c18.af.params", f"handler {n}: live parameters {live}, table {rep!r}")
+    if list(reps[-1]) != ["ok", str(len(A['routines']))]:
+        chk.disagree("c18.af.nroutines", f"driver table {reps[-1]!r} vs translator {len(A['routines'])}")
+    chk.count("alias:handlers-read-back", len(hs))
+
+
+def compare_alias_observations(chk, M, obs):
+    """catalogue observations vs the may-alias verdict: an operand bound to parameter p of handler h that CHANGED must
+    be a parameter the model says may be written (a change with verdict `false` contradicts array_functions_leave_inputs_intact:
+    the abstraction missed a write path)"""
+    hs = sorted({k.split("\t")[0] for k in obs})
+    reps = M.ask([f"c18.af.written\t{h}" for h in hs] + [f"c18.af.params\t{h}" for h in hs])
+    def names(r):
+        return [x for x in (r[1].split(",") if len(r) > 1 else []) if x]
+
+    written = {h: (names(r) if r and r[0] == "ok" else None) for h, r in zip(hs, reps[:len(hs)])}
+    params = {h: (names(r) if r and r[0] == "ok" else []) for h, r in zip(hs, reps[len(hs):])}
+    for k, (n, changed) in sorted(obs.items()):
+        h, par = k.split("\t")
+        chk.case(("alias-obs", h, par))
+        chk.count("alias:operand-observations", n)
+        if written[h] is None or par not in params[h]:
+            chk.disagree("c18.af.written", f"handler {h} parameter {par}: not in the regenerated table")
+            continue
+        if changed and par not in written[h]:
+            chk.disagree("c18.af.written", f"handler {h}: operand bound to parameter {par} changed in {changed} of {n} calls, the model's verdict is 'cannot be written' (written: {written[h]})")
+        elif par in written[h]:
+            chk.count("alias:verdict-may-write:" + ("observed" if changed else "not-observed"))
+        else:
+            chk.count("alias:verdict-intact:confirmed")
+
+
+def run_catalogue(chk, tier, seed, M=None):
     import multiprocessing
 
     import c18_cat as K
@@ -812,6 +863,14 @@ def run_catalogue(chk, tier, seed):
                 for r in range(2) for lo in range(0, n, step)]
     with multiprocessing.get_context("fork").Pool(4) as pool:
         results = pool.map(K.sweep, jobs, chunksize=1)
+    obs = {}
+    for res in results:
+        for k, (n_obs, n_chg) in res.get("obs", {}).items():
+            e = obs.setdefault(k, [0, 0])
+            e[0] += n_obs
+            e[1] += n_chg
+    if M is not None:
+        compare_alias_observations(chk, M, obs)
     for res in results:
         for k, v in res["stats"].items():
             chk.count("cat:" + k, v)
@@ -912,8 +971,9 @@ def run(tier, seed):
     gen._EXTRACT = None
     M = core.Model("drv_c18")
     check_tables(chk, M, X)
+    check_alias_table(chk, M)
     run_conversions(chk, M, tier)
     run_ufuncs(chk, M, tier)
     run_witnesses(chk)
-    run_catalogue(chk, tier, seed)
+    run_catalogue(chk, tier, seed, M)
     return chk.finish(RULE, "effect-ordering theorems + ast-regenerated statement order; snapshots validate the effect lists")
